@@ -78,7 +78,7 @@ def polar_name(nm): return re.sub('[^A-Za-z0-9_]+', '', nm.lower()) or '_'
 def items(tier, seed):
     rnd = random.Random(9000 + seed)
     its = []
-    nnet = 5 if tier == 'quick' else 40
+    nnet = 5 if tier == 'quick' else 120
     for i in range(nnet):
         k = rnd.choice([2, 3, 3, 4] if tier != 'quick' else [2, 3, 3])
         names = rnd.choice([None, ['Rain-1', 'Wet_Grass', 'X2', 'smoke'][:k], ['tub-er', 'tuber', 'out', 'Out'][:k], ['Smoke', 'smoke', 'S-moke'][:k]])
